@@ -14,7 +14,14 @@ cleanup() { git -C /repo worktree remove --force "$W" >/dev/null 2>&1; rm -rf "$
 trap cleanup EXIT
 export CARGO_TARGET_DIR="$W/.base-target"
 mkdir -p "$W/rarena-allocator/tests"; cp "$D/demo.rs" "$W/rarena-allocator/tests/seed_demo.rs"
-demo() { (cd "$W" && timeout 600 cargo test -p rarena-allocator --features ${DEMO_FEATURES:-memmap} --test seed_demo --offline 2>&1 | grep -E "^test result|panicked|error(\[|:)" | head -5); }
+# DEMO_MIRI=1: the demonstration only fails under miri (weakened orderings are invisible on x86-64)
+if [ -n "${DEMO_MIRI:-}" ]; then
+  DEMO_CMD="MIRIFLAGS='-Zmiri-disable-weak-memory-emulation -Zmiri-address-reuse-cross-thread-rate=0' cargo +nightly miri test -p rarena-allocator --test seed_demo --offline"
+  demo() { (cd "$W" && MIRIFLAGS="-Zmiri-disable-weak-memory-emulation -Zmiri-address-reuse-cross-thread-rate=0" timeout 1200 cargo +nightly miri test -p rarena-allocator --test seed_demo --offline 2>&1 | grep -E "^test result|panicked|error(\[|:)|Undefined Behavior" | head -5); }
+else
+  DEMO_CMD="cargo test -p rarena-allocator --features ${DEMO_FEATURES:-memmap} --test seed_demo --offline"
+  demo() { (cd "$W" && timeout 600 cargo test -p rarena-allocator --features ${DEMO_FEATURES:-memmap} --test seed_demo --offline 2>&1 | grep -E "^test result|panicked|error(\[|:)" | head -5); }
+fi
 U=$(demo); case "$U" in *"test result: ok"*) DU=pass;; *) DU="FAIL";; esac
 if ! git -C "$W" apply "$D/patch.diff"; then echo "SEED $SID: patch does not apply to current /repo HEAD"; exit 2; fi
 BASE=$(cd "$W" && cargo test --workspace --no-fail-fast --offline 2>&1 | grep "^test result" | head -1)
@@ -40,7 +47,7 @@ cat > "/verif/seeded/$SID/meta.json" <<META
    "demo_on_unchanged_tree": "$DU",
    "repository_suite_with_patch": "$B",
    "demo_with_patch": "$DP",
-   "commands": ["cargo test -p rarena-allocator --features ${DEMO_FEATURES:-memmap} --test seed_demo --offline", "cargo test --workspace --no-fail-fast --offline"]
+   "commands": ["${DEMO_CMD//\"/\\\"}", "cargo test --workspace --no-fail-fast --offline"]
  },
  "checks_run": [${JS%,}]
 }
